@@ -1043,4 +1043,250 @@ theorem start_spec (H : History) (o : Opts) (a : LoadArgs) (hfix : o.fix = .new)
     simp only [List.length_reverse, List.length_append, List.length_cons]
     omega
 
+/-! ### a schedule of `load` calls -/
+
+def outEvents : LoadOut → List Event
+  | .hang => []
+  | .done _ _ e => e
+
+/-- The trace of a replay over the lines `todo`: every call consumes a prefix of what is left, all of
+it due, and delivers exactly its events; a call without `limit`/`upcoming` leaves nothing that is due. -/
+def TraceOK (H : History) (o : Opts) : List LoadArgs → List Line → List LoadOut → Prop
+  | [], _, outs => outs = []
+  | a :: as, todo, outs =>
+    ∃ c r t s' rest, outs = .done t s' (deliverable c) :: rest ∧ todo = c ++ r ∧
+      (∀ x ∈ tsOf c, x ≤ a.clock + o.la) ∧ Pos H (a.clock + o.la) s' r ∧
+      (a.limit = none → a.upcoming = none → Blocked (a.clock + o.la) r) ∧ TraceOK H o as r rest
+
+/-- clocks do not go back -/
+def ClockMono (sched : List LoadArgs) : Prop := sched.Pairwise (fun x y => x.clock ≤ y.clock)
+
+instance (sched : List LoadArgs) : Decidable (ClockMono sched) := by unfold ClockMono; infer_instance
+
+theorem run_from (H : History) (o : Opts) (hfix : o.fix = .new) (hwf : WF H) (sched : List LoadArgs) :
+    ∀ (s : LState) (bound : Time) (todo : List Line), Pos H bound s todo → ClockMono sched →
+    (∀ a ∈ sched, bound ≤ a.clock + o.la) → TraceOK H o sched todo (runLoads H o sched s) := by
+  induction sched with
+  | nil => intro _ _ _ _ _ _; rfl
+  | cons a as ih =>
+    intro s bound todo hpos hmono hb
+    obtain ⟨c, r, t, s', h1, h2, h3, h4, h5⟩ := load_spec H o a hfix hwf s bound todo hpos (hb a (by simp))
+    rw [List.nil_append] at h2
+    simp only [runLoads, h2]
+    refine ⟨c, r, t, s', runLoads H o as s', rfl, h1, h3, h4, h5, ?_⟩
+    refine ih s' _ r h4 (List.pairwise_cons.mp hmono).2 ?_
+    intro a' ha'
+    exact Nat.add_le_add_right ((List.pairwise_cons.mp hmono).1 a' ha') _
+
+/-- **The trace of a whole replay** begun with a fresh loader. -/
+theorem run_trace (H : History) (o : Opts) (hfix : o.fix = .new) (hwf : WF H) (a : LoadArgs)
+    (as : List LoadArgs) (hmono : ClockMono (a :: as)) :
+    TraceOK H o (a :: as) (spanLines H a.clock) (runLoads H o (a :: as) {}) := by
+  obtain ⟨c, r, t, s', h1, h2, h3, h4, h5⟩ := start_spec H o a hfix hwf
+  rw [List.nil_append] at h2
+  simp only [runLoads, h2]
+  refine ⟨c, r, t, s', runLoads H o as s', rfl, h1, h3, h4, h5, ?_⟩
+  refine run_from H o hfix hwf as s' _ r h4 (List.pairwise_cons.mp hmono).2 ?_
+  intro a' ha'
+  exact Nat.add_le_add_right ((List.pairwise_cons.mp hmono).1 a' ha') _
+
+/-- what a replay goes through is in timestamp order -/
+theorem spanLines_sorted {H : History} (hwf : WF H) (c : Time) : (tsOf (spanLines H c)).Pairwise (· ≤ ·) := by
+  unfold spanLines
+  cases hs : startSplit c H with
+  | none => simp [tsOf]
+  | some x =>
+    obtain ⟨pre, f, post⟩ := x
+    obtain ⟨hH, _, _⟩ := startSplit_spec hs
+    have := hwf.mono
+    unfold chron at this
+    rw [hH] at this
+    simp only [List.reverse_append, List.reverse_cons, List.append_assoc, List.singleton_append,
+      List.flatten_append, List.flatten_cons] at this
+    exact tsOf_suffix_sorted this
+
+/-! ### reading a trace -/
+
+theorem mem_deliverable_ts {e : Event} {c : List Line} (h : e ∈ deliverable c) : e.1 ∈ tsOf c := by
+  induction c with
+  | nil => simp [deliverable] at h
+  | cons l ls ih =>
+    rw [deliverable_cons, List.mem_append] at h
+    cases l with
+    | comment =>
+      rw [tsOf_cons_comment]
+      rcases h with h | h
+      · simp [lineEvent] at h
+      · exact ih h
+    | corrupt =>
+      rw [tsOf_cons_corrupt]
+      rcases h with h | h
+      · simp [lineEvent] at h
+      · exact ih h
+    | recd t p =>
+      rw [tsOf_cons_recd]
+      rcases h with h | h
+      · cases p with
+        | regs kv =>
+          simp only [lineEvent] at h
+          split at h
+          · simp at h
+          · simp only [Option.toList_some, List.mem_singleton] at h
+            rw [h]; simp
+        | skip => simp [lineEvent] at h
+        | bad => simp [lineEvent] at h
+      · exact List.mem_cons_of_mem _ (ih h)
+
+theorem trace_length {H : History} {o : Opts} {sched : List LoadArgs} {todo : List Line}
+    {outs : List LoadOut} (h : TraceOK H o sched todo outs) :
+    outs.length = sched.length ∧ ∀ out ∈ outs, out ≠ .hang := by
+  induction sched generalizing todo outs with
+  | nil => simp only [TraceOK] at h; subst h; simp
+  | cons a as ih =>
+    obtain ⟨c, r, t, s', rest, rfl, _, _, _, _, hrest⟩ := h
+    obtain ⟨h1, h2⟩ := ih hrest
+    refine ⟨by simp [h1], ?_⟩
+    intro out hout
+    simp only [List.mem_cons] at hout
+    rcases hout with rfl | hout
+    · simp
+    · exact h2 out hout
+
+/-- everything delivered, in order of delivery, is the events of a prefix of the lines -/
+theorem trace_prefix {H : History} {o : Opts} {sched : List LoadArgs} {todo : List Line}
+    {outs : List LoadOut} (h : TraceOK H o sched todo outs) :
+    ∃ c r, todo = c ++ r ∧ (outs.map outEvents).flatten = deliverable c := by
+  induction sched generalizing todo outs with
+  | nil => simp only [TraceOK] at h; subst h; exact ⟨[], todo, rfl, rfl⟩
+  | cons a as ih =>
+    obtain ⟨c, r, t, s', rest, rfl, rfl, _, _, _, hrest⟩ := h
+    obtain ⟨c', r', rfl, h2⟩ := ih hrest
+    refine ⟨c ++ c', r', by simp, ?_⟩
+    simp only [List.map_cons, List.flatten_cons, outEvents, h2, deliverable_append]
+
+/-- what the `i`-th call delivers is due at that call -/
+theorem trace_never_early {H : History} {o : Opts} {sched : List LoadArgs} {todo : List Line}
+    {outs : List LoadOut} (h : TraceOK H o sched todo outs) (i : Nat) (a : LoadArgs) (out : LoadOut)
+    (ha : sched[i]? = some a) (hout : outs[i]? = some out) :
+    ∀ e ∈ outEvents out, e.1 ≤ a.clock + o.la := by
+  induction sched generalizing todo outs i with
+  | nil => simp at ha
+  | cons a' as ih =>
+    obtain ⟨c, r, t, s', rest, rfl, rfl, hdue, _, _, hrest⟩ := h
+    cases i with
+    | zero =>
+      simp only [List.getElem?_cons_zero, Option.some.injEq] at ha hout
+      subst ha hout
+      intro e he
+      exact hdue _ (mem_deliverable_ts he)
+    | succ i =>
+      simp only [List.getElem?_cons_succ] at ha hout
+      exact ih hrest i ha hout
+
+/-- after a call without `limit`/`upcoming` nothing that is due is left -/
+theorem trace_not_late {H : History} {o : Opts} {sched : List LoadArgs} {todo : List Line}
+    {outs : List LoadOut} (h : TraceOK H o sched todo outs)
+    (hsorted : (tsOf todo).Pairwise (· ≤ ·)) (i : Nat) (a : LoadArgs)
+    (ha : sched[i]? = some a) (hl : a.limit = none) (hu : a.upcoming = none) :
+    ∃ c r, todo = c ++ r ∧ ((outs.take (i + 1)).map outEvents).flatten = deliverable c ∧
+      ∀ x ∈ tsOf r, a.clock + o.la < x := by
+  induction sched generalizing todo outs i with
+  | nil => simp at ha
+  | cons a' as ih =>
+    obtain ⟨c, r, t, s', rest, rfl, rfl, hdue, _, hblk, hrest⟩ := h
+    cases i with
+    | zero =>
+      simp only [List.getElem?_cons_zero, Option.some.injEq] at ha
+      subst ha
+      refine ⟨c, r, rfl, by simp [outEvents], ?_⟩
+      rcases hblk hl hu with rfl | ⟨ts, p, tl, rfl, hnot⟩
+      · simp [tsOf]
+      · intro x hx
+        rw [tsOf_cons_recd] at hx
+        simp only [List.mem_cons] at hx
+        rcases hx with rfl | hx
+        · exact hnot
+        · have hs := tsOf_suffix_sorted hsorted
+          rw [tsOf_cons_recd] at hs
+          exact Nat.lt_of_lt_of_le hnot ((List.pairwise_cons.mp hs).1 x hx)
+    | succ i =>
+      simp only [List.getElem?_cons_succ] at ha
+      obtain ⟨c', r', rfl, h2, h3⟩ := ih hrest (tsOf_suffix_sorted hsorted) i ha
+      refine ⟨c ++ c', r', by simp, ?_, h3⟩
+      simp only [List.take_succ_cons, List.map_cons, List.flatten_cons, outEvents, h2, deliverable_append]
+
+/-- with a clock that does not go back: after a call without `limit`/`upcoming` exactly the lines
+that are due have been consumed -/
+theorem trace_on_time {H : History} {o : Opts} {sched : List LoadArgs} {todo : List Line}
+    {outs : List LoadOut} (h : TraceOK H o sched todo outs) (hmono : ClockMono sched)
+    (hsorted : (tsOf todo).Pairwise (· ≤ ·)) (i : Nat) (a : LoadArgs)
+    (ha : sched[i]? = some a) (hl : a.limit = none) (hu : a.upcoming = none) :
+    ∃ c r, todo = c ++ r ∧ ((outs.take (i + 1)).map outEvents).flatten = deliverable c ∧
+      (∀ x ∈ tsOf c, x ≤ a.clock + o.la) ∧ ∀ x ∈ tsOf r, a.clock + o.la < x := by
+  induction sched generalizing todo outs i with
+  | nil => simp at ha
+  | cons a' as ih =>
+    cases i with
+    | zero =>
+      obtain ⟨c, r, t, s', rest, rfl, rfl, hdue, _, hblk, _⟩ := h
+      simp only [List.getElem?_cons_zero, Option.some.injEq] at ha
+      subst ha
+      refine ⟨c, r, rfl, by simp [outEvents], hdue, ?_⟩
+      rcases hblk hl hu with rfl | ⟨ts, p, tl, rfl, hnot⟩
+      · simp [tsOf]
+      · intro x hx
+        rw [tsOf_cons_recd] at hx
+        simp only [List.mem_cons] at hx
+        rcases hx with rfl | hx
+        · exact hnot
+        · have hs := tsOf_suffix_sorted hsorted
+          rw [tsOf_cons_recd] at hs
+          exact Nat.lt_of_lt_of_le hnot ((List.pairwise_cons.mp hs).1 x hx)
+    | succ i =>
+      obtain ⟨c0, r0, t, s', rest, rfl, rfl, hdue, _, _, hrest⟩ := h
+      simp only [List.getElem?_cons_succ] at ha
+      obtain ⟨c', r', rfl, h2, h3, h4⟩ :=
+        ih hrest (List.pairwise_cons.mp hmono).2 (tsOf_suffix_sorted hsorted) i ha
+      refine ⟨c0 ++ c', r', by simp, ?_, ?_, h4⟩
+      · simp only [List.take_succ_cons, List.map_cons, List.flatten_cons, outEvents, h2, deliverable_append]
+      · intro x hx
+        rw [tsOf_append, List.mem_append] at hx
+        rcases hx with hx | hx
+        · have hc : a'.clock ≤ a.clock := (List.pairwise_cons.mp hmono).1 a (List.mem_of_getElem? ha)
+          exact Nat.le_trans (hdue x hx) (Nat.add_le_add_right hc _)
+        · exact h3 x hx
+
+/-- the loader state after the last call -/
+def lastState : List LoadOut → LState → LState
+  | [], s => s
+  | .hang :: rest, s => lastState rest s
+  | .done _ s' _ :: rest, _ => lastState rest s'
+
+/-- a replay that has reached EXHAUSTED or COMPLETE has consumed everything -/
+theorem trace_exhausted {H : History} {o : Opts} {sched : List LoadArgs} {todo : List Line}
+    {outs : List LoadOut} (h : TraceOK H o sched todo outs) (hne : sched ≠ []) (s0 : LState)
+    (hst : (lastState outs s0).st = .exhausted ∨ (lastState outs s0).st = .complete) :
+    (outs.map outEvents).flatten = deliverable todo := by
+  induction sched generalizing todo outs s0 with
+  | nil => exact (hne rfl).elim
+  | cons a as ih =>
+    obtain ⟨c, r, t, s', rest, rfl, rfl, _, hpos, _, hrest⟩ := h
+    simp only [lastState] at hst
+    cases as with
+    | nil =>
+      simp only [TraceOK] at hrest
+      subst hrest
+      simp only [lastState] at hst
+      cases hpos with
+      | exhausted hr _ _ => subst hr; simp [outEvents]
+      | inFile later f post need rest' cur adv _ _ _ _ _ _ _ hnone hsome =>
+        exfalso
+        cases need with
+        | none => have := (hnone rfl).1; rw [this] at hst; simp at hst
+        | some tp => have := (hsome tp.1 tp.2 rfl).1; rw [this] at hst; simp at hst
+    | cons a2 as2 =>
+      have := ih hrest (by simp) s' hst
+      simp only [List.map_cons, List.flatten_cons, outEvents, deliverable_append]
+      rw [this]
+
 end Cpppo.History
